@@ -28,7 +28,7 @@ Code shape (what mirrors what):
                              `clip((obj - min) / (max - min), 0, 1)`);
 * `scatterPt / scatter / boundaryLines / axLims`
                            ↔ `sliding_boundaries_archive_heatmap`, `proximity_archive_plot`;
-* `colsOk / pick / normRest / normYs / sortByObj / normClip / parallelPlot`
+* `colsOk / parCols / pick / axesOf / parallelAxes / normRest / normYs / sortByObj / normClip / parallelPlot`
                            ↔ `parallel_axes_plot`;
 * `minL / maxL / clim`     ↔ `vmin = np.min(objective_batch) if vmin is None else vmin` (all of them).
 Spec-shaped: `cellObj` (what a cell stores), `lastBy` (last write wins), `axisFrac`
@@ -374,14 +374,35 @@ ValueError (so does an empty list: `np.max` of nothing) -/
 def colsOk (measureDim : Nat) (cols : List Int) : Bool :=
   !cols.isEmpty && cols.all (fun c => decide (0 ≤ c ∧ c < (measureDim : Int)))
 
+/-- the plotted columns: `measure_order`, or all measures in order -/
+def parCols (dim : Nat) (order : Option (List Int)) : Option (List Nat) :=
+  match order with
+  | none => some (List.range dim)
+  | some cs => if colsOk dim cs then some (cs.map Int.toNat) else none
+
+/-- the limits of the plotted axes: the archive bounds of the selected measures; an axis on which
+all stored measures coincide (bounds taken from the stored measures, e.g. a ProximityArchive with
+one elite: `lower == upper`) is widened by 1/100 on both sides — as `proximity_archive_plot`
+widens its bounds — so that the normalisation below is defined and the value is drawn mid-axis -/
+def axesOf (l h : List Rat) : List (Rat × Rat) := (List.zip l h).map widen
+
+def axesLo (l h : List Rat) : List Rat := (axesOf l h).map (·.1)
+def axesHi (l h : List Rat) : List Rat := (axesOf l h).map (·.2)
+
+/-- `axis.set_ylim(lower_bounds[i], upper_bounds[i])` for every plotted axis -/
+def parallelAxes (los his : List Rat) (order : Option (List Int)) : Option (List (Rat × Rat)) :=
+  match parCols los.length order with
+  | none => none
+  | some cols =>
+    match pick los cols, pick his cols with
+    | some l, some h => some (axesOf l h)
+    | _, _ => none
+
 /-- `parallel_axes_plot`: `los / his` are the archive's lower / upper bounds, `order` is
 `measure_order` (`none` = all measures in order) -/
 def parallelPlot (los his : List Rat) (order : Option (List Int)) (elites : List Elite)
     (sort : Bool) (vmin vmax : Option Rat) : Except Err (List ParLine × (Rat × Rat)) :=
-  let dim := los.length
-  match (match order with
-         | none => some (List.range dim)
-         | some cs => if colsOk dim cs then some (cs.map Int.toNat) else none) with
+  match parCols los.length order with
   | none => .error .value
   | some cols =>
     match clim (elites.map (·.obj)) vmin vmax with
@@ -391,7 +412,7 @@ def parallelPlot (los his : List Rat) (order : Option (List Int)) (elites : List
       | some l, some h =>
         let es := if sort then sortByObj elites else elites
         match allSome (es.map (fun e => (pick e.meas cols).map
-                (fun ys => (⟨e.obj, normClip lo hi e.obj, normYs l h ys⟩ : ParLine)))) with
+                (fun ys => (⟨e.obj, normClip lo hi e.obj, normYs (axesLo l h) (axesHi l h) ys⟩ : ParLine)))) with
         | some lines => .ok (lines, (lo, hi))
         | none => .error .index
       | _, _ => .error .index
